@@ -616,3 +616,10 @@ PROPS["C14"]["explanation"] += (" E2 (base64 wrappers): the two decoders strip t
                                 "textual presentations (standard / url-safe, padded / unpadded) of byte strings of length 0..=7, byte arrays, and encode-decode inverses.")
 PROPS["C14"]["level_text"] = "PARTIAL claim: the number-presentation kernel (E1) and the shape of the four base64 wrappers (E2); serde_json parsing of the option structures is not decided."
 PROPS["C14"]["technique"] = "Kani/CBMC bounded model checking (StringOrNum) + symbolic path execution of rustc MIR (base64 wrappers), native replay"
+
+# round 5
+PROPS["C11"]["e2"] = PROPS["C11"]["e2"] + ["client_register"]
+PROPS["C11"]["functions"] += ["E2: passkey-client Client::register::{closure#0} (the arguments of registration_extension_outputs)"]
+PROPS["C11"]["explanation"] += (" E2 (client): in Client::register the credProps outputs are computed from the store's own get_info answer and from the very rk value (map_rk's result) that "
+                                "was sent to the authenticator; replayed natively over 3 store capabilities x 5 resident-key requests x 3 user-verification requests with credProps requested.")
+PROPS["C19"]["explanation"] += (" Registrations: make_credential reports success only after an accepted save_credential call (one atomic step through the wrappers).")
